@@ -42,7 +42,8 @@ ASSUMPTIONS = [
 
 COLTYPES = ["LIST", "SET", "HEAP", "VECTOR", "NAIVE_VECTOR", "SMALL_VECTOR", "UNORDERED_SET", "INTRUSIVE_LIST", "INTRUSIVE_SET"]
 ROWOPTS = [(0, 1, 0), (1, 1, 0), (1, 0, 0), (1, 1, 1), (1, 0, 1)]   # (rows, intrusive, removable)
-PRIMES = [5, 65521, 2, 3, 7]
+PRIMES = [5, 257, 2, 3, 7]
+BIG = 65521    # set_characteristic(65521) takes seconds (inverse table): only a few sequences per option set use it
 
 
 class Cfg:
@@ -480,16 +481,17 @@ def check(ctx, replay=None):
                     if c.tag not in [x.tag for x in cfgs]:
                         cfgs.append(c)
                     work.append((c, case["header"], list(case["ops"]), {"corpus"}))
-        nseq = 40 if thorough else 22
+        nseq = 80 if thorough else 45
         for c in cfgs:
             primes = [2] if c.d["Z2"] else PRIMES
             for (h, ops) in boundary_sequences(c, primes[0]):
                 work.append((c, h, ops, {"boundary-stream"}))
+            nbig = 4 if thorough else 1
             if not c.d["Z2"]:
-                for (h, ops) in boundary_sequences(c, 65521)[:2]:
+                for (h, ops) in boundary_sequences(c, BIG)[:nbig]:
                     work.append((c, h, ops, {"boundary-stream"}))
             for i in range(nseq):
-                p = 2 if c.d["Z2"] else (primes[i % 2] if i % 5 else rng.choice(primes))
+                p = 2 if c.d["Z2"] else BIG if i < nbig else (primes[i % 2] if i % 5 else rng.choice(primes))
                 h, ops, tags = gen_sequence(rng, c, p, rng.choice([12, 25, 50]))
                 work.append((c, h, ops, tags))
     bins = build_all(ctx, cfgs)
